@@ -150,3 +150,11 @@ package stream
 //@ func formatUpdaterH265$1
 //@   property C22
 //@   ensures formatH265.VPS == old(vps) && formatH265.SPS == old(sps) && formatH265.PPS == old(pps)
+
+// C16: a sub stream that is no longer the stream's current one delivers nothing.
+
+//@ func (ss *SubStream) WriteUnit
+//@   property C16
+//@   safety -all
+//@   assert-call writeUnit: old(ss.Stream.subStream) == ss
+//@   ensures [stale-sub-stream-delivers-nothing] old(ss.Stream.subStream) != ss ==> called(writeUnit) == 0
